@@ -430,3 +430,15 @@ package dispatch
 //@   at call newRoute assert [fresh-counter-from-zero] arg0 == cr && arg1 == parent && deref(arg2) == 0
 //@   ensures [the-tree-built] result == ret("newRoute")
 //@   noeffect newRoute
+
+// ---- C07 / C06: a group's route labels are rendered from its current alerts and cached per invalidation generation:
+// a cached rendering is served only for the generation it was made for, read *before* the alerts are listed.
+//@ func (*aggrGroup).RouteLabels
+//@   props C07 C06
+//@   nosafe
+//@   at call store.Alerts).List assert [generation-read-before-the-alerts] count("Uint64).Load") == 1 && count("]).Load[") == 1
+//@   at call aggrGroup).renderRouteLabels assert [rendered-against-the-group_s-current-alerts] arg1 == ret("store.Alerts).List") && len(arg1) > 0
+//@   ensures [a-cached-rendering-only-for-its-own-generation] !called("store.Alerts).List") ==> ret("Load[") != nil && ret("Load[").gen == ret("Uint64).Load") && result == ret("Load[").labels
+//@   ensures [a-new-rendering-is-returned] called("aggrGroup).renderRouteLabels") ==> result == ret("aggrGroup).renderRouteLabels")
+//@   ensures [nothing-to-render-for-an-empty-group] called("store.Alerts).List") && len(ret("store.Alerts).List")) == 0 ==> !called("aggrGroup).renderRouteLabels") && len(result) == 0
+//@   noeffect store.Alerts).List aggrGroup).renderRouteLabels
